@@ -21,7 +21,7 @@ CLAUSES = {
     "C01.load_before_adj": "L", "C01.load_covers": "L", "C01.rev_deps": "R",
     "C02.after_last": "act", "C02.only_forward_before_ef": "act", "C02.er_due": "act",
     "C02.fwd_once": "F", "C02.rev_phase": "R", "C02.rev_order": "R", "C02.load_phase": "L",
-    "C02.ef_once": "EF", "C02.ef_position": "EF", "C02.er_complete": "ER",
+    "C02.incomplete": "next", "C02.ef_once": "EF", "C02.ef_position": "EF", "C02.er_complete": "ER",
     "C03.ram": "any", "C03.disk": "any", "C03.kind": "F",
     "C04.clean": "ER", "C04.no_accumulation": "ER",
     "C08.n": "any", "C08.r": "any", "C08.max_n": "any",
